@@ -57,10 +57,10 @@ func hvEvalSource(src string) interface{} {
 }
 
 type hvKinds struct {
-	litRunes, litString   bool // host kind of a string literal's value
-	bitInt64              bool // bitwise operators yield int64 (otherwise float64)
-	lenInt                bool // the length built-in yields int (otherwise float64)
-	notInt64              bool // ~x yields int64
+	litRunes, litString bool // host kind of a string literal's value
+	bitInt64            bool // bitwise operators yield int64 (otherwise float64)
+	lenInt              bool // the length built-in yields int (otherwise float64)
+	notInt64            bool // ~x yields int64
 }
 
 func hvReachable() hvKinds {
